@@ -27,10 +27,18 @@ Definition g_F2_query (fixed_F6 : bool) (L : lreq) (q : query) : bool :=
   | _ => false
   end.
 
-(** C13-F3: a pipeline header name that was added more than once *)
-Definition g_F3_adds (adds : list add) : bool :=
+(** C13-F3: a pipeline header name that was added more than once — with the pinned Finalize of
+    decision and proxy always (first value only), with the repaired one only when one of the values
+    carries surrounding blanks (separate header lines are trimmed one by one on the wire, Envoy's
+    joined value only at its ends) *)
+Definition no_lead (s : string) : bool := match s with String c _ => negb (is_ows c) | EmptyString => true end.
+Definition no_trail (s : string) : bool := match last_byte s with Some c => negb (is_ows c) | None => true end.
+Definition trimmedb (s : string) : bool := no_lead s && no_trail s.
+
+Definition g_F3_adds (fixed_F3 : bool) (adds : list add) : bool :=
   let uh := upstream_headers adds in
-  existsb (fun k => Nat.ltb 1 (length (values k uh))) (keys_of uh []).
+  existsb (fun k => Nat.ltb 1 (length (values k uh)) &&
+                    (negb fixed_F3 || negb (forallb trimmedb (values k uh)))) (keys_of uh []).
 
 (** C13-F4: the path carries percent-escapes (URL.Path / String()), RawPath is read, or an encoded
     slash meets the default `allow_encoded_slashes: off` *)
@@ -928,10 +936,61 @@ Qed.
 Lemma get_join_single k (h : hdrs) : (length (values k h) <= 1)%nat -> get k h = join "," (values k h).
 Proof. unfold get. destruct (values k h) as [|v [|w r]]; cbn; intro H; try reflexivity. lia. Qed.
 
-(** C13, hand-over: without a pipeline header added twice (or with the repair of C13-F3) and without
-    cookie values that net/http rewrites, the three Finalize hand the same headers and cookies over *)
+(** values without surrounding blanks pass the wire unchanged, and so does their ","-join *)
+Lemma trim_right_no_trail f s :
+  match last_byte s with Some c => f c = false | None => True end -> trim_right f s = s.
+Proof.
+  induction s as [|a r IH]; [reflexivity|]. cbn [last_byte trim_right].
+  destruct r as [|b r'].
+  - cbn. intro H. rewrite H. reflexivity.
+  - intro H. rewrite (IH H). reflexivity.
+Qed.
+
+Lemma trimmed_spec s : trimmedb s = true -> http_trim s = s.
+Proof.
+  unfold trimmedb, no_lead, no_trail, http_trim. intro H. apply andb_true_iff in H as [H1 H2].
+  assert (L : trim_left is_ows s = s).
+  { destruct s as [|c r]; [reflexivity|]. cbn. apply negb_true_iff in H1. rewrite H1. reflexivity. }
+  rewrite L. apply trim_right_no_trail. destruct (last_byte s); [apply negb_true_iff; exact H2 | exact I].
+Qed.
+
+Lemma last_byte_cons c r : last_byte (String c r) <> None.
+Proof. revert c. induction r as [|d r IH]; intro c; [discriminate|]. cbn [last_byte]. apply IH. Qed.
+
+Lemma last_byte_app a b : last_byte (a ++ b) = match last_byte b with Some c => Some c | None => last_byte a end.
+Proof.
+  induction a as [|x a IH]; [cbn; destruct (last_byte b); reflexivity|].
+  cbn [append last_byte]. destruct (a ++ b) as [|y r] eqn:E.
+  - destruct a; [|discriminate]. cbn in E. subst b. reflexivity.
+  - rewrite IH. destruct (last_byte b) eqn:Lb; [reflexivity|].
+    destruct a as [|z a']; [|reflexivity]. cbn in E. subst b. exfalso. exact (last_byte_cons y r Lb).
+Qed.
+
+Lemma join_trimmed vs : forallb trimmedb vs = true -> trimmedb (join "," vs) = true.
+Proof.
+  induction vs as [|v vs IH]; [reflexivity|]. cbn [forallb]. intro H. apply andb_true_iff in H as [Hv Hr].
+  destruct vs as [|w ws]; [exact Hv|].
+  specialize (IH Hr). change (join "," (v :: w :: ws)) with (v ++ "," ++ join "," (w :: ws)).
+  unfold trimmedb in *. apply andb_true_iff in Hv as [V1 V2]. apply andb_true_iff in IH as [I1 I2].
+  apply andb_true_iff. split.
+  - destruct v; [reflexivity | exact V1].
+  - unfold no_trail in *. rewrite last_byte_app.
+    change ("," ++ join "," (w :: ws)) with (String "," (join "," (w :: ws))).
+    cbn [last_byte]. destruct (join "," (w :: ws)) as [|c r] eqn:J; [reflexivity|].
+    destruct (last_byte (String c r)) eqn:Lc; [exact I2|]. exfalso. exact (last_byte_cons c r Lc).
+Qed.
+
+Lemma map_trim_id vs : forallb trimmedb vs = true -> map http_trim vs = vs.
+Proof.
+  induction vs as [|v vs IH]; [reflexivity|]. cbn [forallb map]. intro H. apply andb_true_iff in H as [Hv Hr].
+  rewrite (trimmed_spec v Hv), (IH Hr). reflexivity.
+Qed.
+
+(** C13, hand-over: without a pipeline header added twice (with the repair of C13-F3: without blanks
+    around the values of such a header) and without cookie values that net/http rewrites, the three
+    Finalize hand the same headers and cookies over *)
 Theorem same_upstream fixed3 adds :
-  negb fixed3 && g_F3_adds adds = false -> g_F5_adds adds = false ->
+  g_F3_adds fixed3 adds = false -> g_F5_adds adds = false ->
   finalize_decision fixed3 adds = finalize_proxy fixed3 adds /\ finalize_decision fixed3 adds = finalize_envoy adds.
 Proof.
   intros G3 G5. unfold g_F5_adds in G5.
@@ -947,9 +1006,17 @@ Proof.
   destruct (Ck _ H5) as [C1 C2].
   unfold finalize_decision, finalize_proxy, finalize_envoy. rewrite C1, C2. split; [reflexivity|].
   f_equal. apply map_ext_in. intros k Hk. f_equal. unfold handed_value.
-  destruct fixed3; [reflexivity|]. cbn [negb andb] in G3. unfold g_F3_adds in G3.
-  pose proof (existsb_false_forall _ _ G3 k Hk) as H3. apply Nat.ltb_ge in H3.
-  apply get_join_single. exact H3.
+  unfold g_F3_adds in G3. pose proof (existsb_false_forall _ _ G3 k Hk) as H3. cbv beta in H3.
+  apply andb_false_iff in H3 as [H3|H3].
+  - (* at most one value *)
+    apply Nat.ltb_ge in H3. destruct fixed3.
+    + destruct (values k (upstream_headers adds)) as [|v [|w r]]; cbn in H3 |- *; try reflexivity. lia.
+    + rewrite (get_join_single k _ H3). reflexivity.
+  - (* repaired Finalize, all values without surrounding blanks *)
+    apply orb_false_iff in H3 as [F3 T]. apply negb_false_iff in F3, T. subst fixed3.
+    rewrite (map_trim_id _ T).
+    destruct (values k (upstream_headers adds)) as [|v vs] eqn:E; [reflexivity|].
+    symmetry. apply trimmed_spec. apply join_trimmed. exact T.
 Qed.
 
 (* ------------------------------------------------------------------ the three entry points *)
@@ -967,7 +1034,7 @@ Section Main.
       (negb (fx_F4 fx) && g_F4_decision (r_slashes rl) L) ||
       let ans := answer (acc_http decode L) (http_mech L (r_slashes rl) caps) in
       existsb (guard_query decode fx (r_slashes rl) caps L) (trace ans (r_prog rl)) ||
-      (negb (fx_F3 fx) && g_F3_adds (snd (run_prog ans (r_prog rl)))) || g_F5_adds (snd (run_prog ans (r_prog rl)))
+      g_F3_adds (fx_F3 fx) (snd (run_prog ans (r_prog rl))) || g_F5_adds (snd (run_prog ans (r_prog rl)))
     end.
 
   (** C13, the decision and what the pipeline emits: the executor ends alike at the HTTP entry points and at Envoy *)
@@ -1052,11 +1119,29 @@ Section Main.
   Qed.
 End Main.
 
+Lemma existsb_ext_all {A} (f g : A -> bool) l : (forall x, f x = g x) -> existsb f l = existsb g l.
+Proof. intro H. induction l as [|x l IH]; [reflexivity|]. cbn. rewrite H, IH. reflexivity. Qed.
+
 (** with every candidate repair applied only the cookie findings (C13-F5) and Headers() as a whole
     (C13-F8) remain guarded *)
 Lemma all_fixed_guards decode s caps L q :
   guard_query decode all_fixed s caps L q = g_F5_query L q || g_F8_query q.
 Proof. unfold guard_query. cbn [all_fixed fx_F1 fx_F2 fx_F4 fx_F6 fx_F7 negb andb orb]. rewrite !orb_false_r. reflexivity. Qed.
+
+Lemma repo_guards_fire decode find L :
+  guards_fire decode find repo_now L =
+  match find (lookup_of (build_http L)) with
+  | None => false
+  | Some (rl, caps) =>
+    let ans := answer (acc_http decode L) (http_mech L (r_slashes rl) caps) in
+    existsb (fun q => g_F5_query L q || g_F8_query q) (trace ans (r_prog rl)) ||
+    g_F3_adds true (snd (run_prog ans (r_prog rl))) || g_F5_adds (snd (run_prog ans (r_prog rl)))
+  end.
+Proof.
+  unfold guards_fire. destruct (find (lookup_of (build_http L))) as [[rl caps]|]; [|reflexivity].
+  cbn [repo_now all_fixed fx_F3 fx_F4 negb andb orb]. cbv zeta.
+  f_equal. f_equal. apply existsb_ext_all. intro q. apply all_fixed_guards.
+Qed.
 
 (* ------------------------------------------------------------------ witnesses: every guard is needed, none is vacuous *)
 
@@ -1079,161 +1164,185 @@ Definition w_rule (id : string) (s : slashes) (authz : option cond) (steps : lis
 Definition hdr_step (name : string) (t : tmpl) : step := {| st_if := None; st_cookie := false; st_items := [(name, t)] |}.
 Definition ck_step (name : string) (t : tmpl) : step := {| st_if := None; st_cookie := true; st_items := [(name, t)] |}.
 
-(** C13-F1 (repaired by fix: b2286d8): the captured value was handed to the upstream as "<no value>"
-    under Envoy; the repaired context agrees with the HTTP entry points on the same request *)
+(** The findings C13-F1, F2, F3, F4, F6, F7 are repaired in /repo ([repo_now = all_fixed]).  Each witness
+    below takes the tree in which exactly that repair is missing ([set_Fi false all_fixed]), shows
+    that its guard fires there and that the entry points differ, and that the repaired tree agrees on
+    the very same request. *)
+
+(** C13-F1 (fix: b2286d8): the captured value was handed to the upstream as "<no value>" under Envoy *)
 Definition w1_rule := w_rule "c0" SOff None [hdr_step "X-User" (TEcho (QCapture "name"))].
 Definition w1_req := w_req "GET" "/c0/abc" [] "".
 Definition w1_find := w_find "/c0/abc" w1_rule [("name", "abc")].
+Definition tree_F1 := set_F1 false all_fixed.
 
 Lemma F1_refuted :
   wf_lreqb w1_req = true /\
-  guards_fire w_decode w1_find pinned w1_req = true /\
+  guards_fire w_decode w1_find tree_F1 w1_req = true /\
   guards_fire w_decode w1_find repo_now w1_req = false /\
-  serve_decision w_decode w1_find pinned w1_req <> serve_envoy w_decode w1_find pinned w1_req /\
-  serve_decision w_decode w1_find repo_now w1_req = serve_envoy w_decode w1_find repo_now w1_req.
-Proof. repeat split; try (vm_compute; reflexivity). vm_compute. intro E. inversion E. Qed.
+  serve_decision w_decode w1_find tree_F1 w1_req <> serve_envoy w_decode w1_find tree_F1 w1_req /\
+  serve_decision w_decode w1_find repo_now w1_req = serve_envoy w_decode w1_find repo_now w1_req /\
+  serve_decision w_decode w1_find pinned w1_req <> serve_envoy w_decode w1_find pinned w1_req.
+Proof. repeat split; try (vm_compute; reflexivity); vm_compute; intro E; inversion E. Qed.
 
 (** ... and a CEL condition on the capture failed with an internal error under Envoy *)
 Definition w1b_rule := w_rule "c1" SOff (Some {| cd_q := QCapture "name"; cd_c := "admin" |}) [].
 Definition w1b_find := w_find "/c1/admin" w1b_rule [("name", "admin")].
 Lemma F1_refuted_decision :
-  s_err (serve_decision w_decode w1b_find pinned (w_req "GET" "/c1/admin" [] "")) = None /\
-  s_err (serve_envoy w_decode w1b_find pinned (w_req "GET" "/c1/admin" [] "")) = Some EInternal /\
+  s_err (serve_decision w_decode w1b_find tree_F1 (w_req "GET" "/c1/admin" [] "")) = None /\
+  s_err (serve_envoy w_decode w1b_find tree_F1 (w_req "GET" "/c1/admin" [] "")) = Some EInternal /\
   s_err (serve_envoy w_decode w1b_find repo_now (w_req "GET" "/c1/admin" [] "")) = None.
 Proof. repeat split; vm_compute; reflexivity. Qed.
 
-(** C13-F2 (on the tree as it is; the candidate repair removes the difference) *)
+(** C13-F2 (fix: 7c3e9fc) *)
 Definition w2_rule := w_rule "c2" SOff (Some {| cd_q := QHeader "x-role"; cd_c := "admin" |}) [].
 Definition w2_req := w_req "GET" "/c2/lit" [("X-Role", "admin")] "".
 Definition w2_find := w_find "/c2/lit" w2_rule [].
+Definition tree_F2 := set_F2 false all_fixed.
 Lemma F2_refuted :
-  wf_lreqb w2_req = true /\ guards_fire w_decode w2_find repo_now w2_req = true /\
-  existsb (g_F2_query false w2_req) [QHeader "x-role"] = true /\
-  s_err (serve_decision w_decode w2_find repo_now w2_req) = None /\
-  s_err (serve_envoy w_decode w2_find repo_now w2_req) = Some EAuthz /\
-  guards_fire w_decode w2_find (set_F2 true repo_now) w2_req = false /\
-  s_err (serve_envoy w_decode w2_find (set_F2 true repo_now) w2_req) = None.
+  wf_lreqb w2_req = true /\ guards_fire w_decode w2_find tree_F2 w2_req = true /\
+  existsb (g_F2_query true w2_req) [QHeader "x-role"] = true /\
+  s_err (serve_decision w_decode w2_find tree_F2 w2_req) = None /\
+  s_err (serve_envoy w_decode w2_find tree_F2 w2_req) = Some EAuthz /\
+  guards_fire w_decode w2_find repo_now w2_req = false /\
+  s_err (serve_envoy w_decode w2_find repo_now w2_req) = None.
 Proof. repeat split; vm_compute; reflexivity. Qed.
 
-(** C13-F3 *)
+(** C13-F3 (fix: a5ef279) *)
 Lemma F3_refuted :
   let adds := [AddHeader "X-Out" "one"; AddHeader "x-out" "two"] in
-  g_F3_adds adds = true /\ g_F5_adds adds = false /\
+  g_F3_adds false adds = true /\ g_F3_adds true adds = false /\ g_F5_adds adds = false /\
   finalize_decision false adds = finalize_proxy false adds /\
   ho_headers (finalize_decision false adds) = [("X-Out", "one")] /\
   ho_headers (finalize_envoy adds) = [("X-Out", "one,two")] /\
   finalize_decision true adds = finalize_envoy adds /\ finalize_proxy true adds = finalize_envoy adds.
 Proof. repeat split; vm_compute; reflexivity. Qed.
 
-(** C13-F4: the encoded slash is refused by the HTTP entry points and let through under Envoy;
-    URL.Path differs for an escaped path *)
+(** what is left of C13-F3 after the repair: values with surrounding blanks of a header added twice *)
+Lemma F3_refuted_blanks :
+  let adds := [AddHeader "X-Out" " a "; AddHeader "X-Out" "b"] in
+  g_F3_adds true adds = true /\
+  ho_headers (finalize_decision true adds) = [("X-Out", "a,b")] /\
+  ho_headers (finalize_envoy adds) = [("X-Out", "a ,b")].
+Proof. repeat split; vm_compute; reflexivity. Qed.
+
+(** C13-F4 (fix: ae6db4f): the encoded slash was refused by the HTTP entry points and let through
+    under Envoy; URL.Path differed for an escaped path *)
 Definition w4_rule := w_rule "c4" SOff None [hdr_step "X-Path" (TEcho QPath)].
 Definition w4_req := w_req "GET" "/c4/a/b%2Fc" [] "".
 Definition w4_find := w_find "/c4/a/b%2Fc" w4_rule [].
+Definition tree_F4 := set_F4 false all_fixed.
 Lemma F4_refuted :
-  wf_lreqb w4_req = true /\ g_F4_decision SOff w4_req = true /\ guards_fire w_decode w4_find repo_now w4_req = true /\
-  s_err (serve_decision w_decode w4_find repo_now w4_req) = Some EArgument /\
-  s_err (serve_envoy w_decode w4_find repo_now w4_req) = None /\
-  s_err (serve_envoy w_decode w4_find (set_F4 true repo_now) w4_req) = Some EArgument.
+  wf_lreqb w4_req = true /\ g_F4_decision SOff w4_req = true /\ guards_fire w_decode w4_find tree_F4 w4_req = true /\
+  s_err (serve_decision w_decode w4_find tree_F4 w4_req) = Some EArgument /\
+  s_err (serve_envoy w_decode w4_find tree_F4 w4_req) = None /\
+  guards_fire w_decode w4_find repo_now w4_req = false /\
+  s_err (serve_envoy w_decode w4_find repo_now w4_req) = Some EArgument.
 Proof. repeat split; vm_compute; reflexivity. Qed.
 
 Definition w4b_req := w_req "GET" "/c4/a%20b" [] "".
 Definition w4b_find := w_find "/c4/a%20b" w4_rule [].
 Lemma F4_refuted_view :
   wf_lreqb w4b_req = true /\ g_F4_query SOff w4b_req QPath = true /\
-  s_handover (serve_decision w_decode w4b_find repo_now w4b_req) = Some {| ho_headers := [("X-Path", "/c4/a b")]; ho_cookies := [] |} /\
-  s_handover (serve_envoy w_decode w4b_find repo_now w4b_req) = Some {| ho_headers := [("X-Path", "/c4/a%20b")]; ho_cookies := [] |} /\
-  s_handover (serve_envoy w_decode w4b_find (set_F4 true repo_now) w4b_req) = Some {| ho_headers := [("X-Path", "/c4/a b")]; ho_cookies := [] |}.
+  s_handover (serve_decision w_decode w4b_find tree_F4 w4b_req) = Some {| ho_headers := [("X-Path", "/c4/a b")]; ho_cookies := [] |} /\
+  s_handover (serve_envoy w_decode w4b_find tree_F4 w4b_req) = Some {| ho_headers := [("X-Path", "/c4/a%20b")]; ho_cookies := [] |} /\
+  guards_fire w_decode w4b_find repo_now w4b_req = false /\
+  s_handover (serve_envoy w_decode w4b_find repo_now w4b_req) = Some {| ho_headers := [("X-Path", "/c4/a b")]; ho_cookies := [] |}.
 Proof. repeat split; vm_compute; reflexivity. Qed.
 
-(** C13-F5: a quoted cookie value is read differently; a value with a space is handed over differently
-    — whatever else is repaired *)
+(** C13-F5 (open): a quoted cookie value is read differently; a value with a space is handed over differently *)
 Definition w5_rule := w_rule "c6" SOff (Some {| cd_q := QCookie "sid"; cd_c := "123" |}) [].
 Definition w5_req := w_req "GET" "/c6/lit" [("Cookie", String "s" (String "i" (String "d" (String "=" (String dquote (String "1" (String "2" (String "3" (String dquote "")))))))))] "".
 Definition w5_find := w_find "/c6/lit" w5_rule [].
 Lemma F5_refuted :
   wf_lreqb w5_req = true /\ g_F5_query w5_req (QCookie "sid") = true /\
-  guards_fire w_decode w5_find all_fixed w5_req = true /\
-  s_err (serve_decision w_decode w5_find all_fixed w5_req) = None /\
-  s_err (serve_envoy w_decode w5_find all_fixed w5_req) = Some EAuthz /\
+  guards_fire w_decode w5_find repo_now w5_req = true /\
+  s_err (serve_decision w_decode w5_find repo_now w5_req) = None /\
   s_err (serve_envoy w_decode w5_find repo_now w5_req) = Some EAuthz.
 Proof. repeat split; vm_compute; reflexivity. Qed.
 
 Lemma F5_refuted_handover : forall fixed3,
   let adds := [AddCookie "pc1" "v 1"] in
-  g_F5_adds adds = true /\ g_F3_adds adds = false /\
+  g_F5_adds adds = true /\ g_F3_adds fixed3 adds = false /\
   finalize_decision fixed3 adds = finalize_proxy fixed3 adds /\
   finalize_decision fixed3 adds <> finalize_envoy adds.
 Proof. intros []; repeat split; try (vm_compute; reflexivity); vm_compute; intro E; inversion E. Qed.
 
-(** C13-F6 *)
+(** C13-F6 (fix: 06faa19) *)
 Definition w6_rule := w_rule "c7" SOff (Some {| cd_q := QHeader "Host"; cd_c := "a.example.com" |}) [].
 Definition w6_req := w_req "GET" "/c7/lit" [] "".
 Definition w6_find := w_find "/c7/lit" w6_rule [].
+Definition tree_F6 := set_F6 false all_fixed.
 Lemma F6_refuted :
-  wf_lreqb w6_req = true /\ g_F6_query (QHeader "Host") = true /\ guards_fire w_decode w6_find repo_now w6_req = true /\
-  s_err (serve_decision w_decode w6_find repo_now w6_req) = None /\
-  s_err (serve_envoy w_decode w6_find repo_now w6_req) = Some EAuthz /\
-  guards_fire w_decode w6_find (set_F6 true repo_now) w6_req = false /\
-  s_err (serve_envoy w_decode w6_find (set_F6 true repo_now) w6_req) = None.
+  wf_lreqb w6_req = true /\ g_F6_query (QHeader "Host") = true /\ guards_fire w_decode w6_find tree_F6 w6_req = true /\
+  s_err (serve_decision w_decode w6_find tree_F6 w6_req) = None /\
+  s_err (serve_envoy w_decode w6_find tree_F6 w6_req) = Some EAuthz /\
+  guards_fire w_decode w6_find repo_now w6_req = false /\
+  s_err (serve_envoy w_decode w6_find repo_now w6_req) = None.
 Proof. repeat split; vm_compute; reflexivity. Qed.
 
-(** C13-F7: a pipeline that hands the decoded body on *)
+(** C13-F7 (fix: 19923cd): a pipeline that hands the decoded body on *)
 Definition w7_rule : rule :=
   {| r_id := "c8"; r_slashes := SOff;
      r_prog := Ask QBody (fun v => match v with VJson s => Emit (AddHeader "X-Body" s) Allow | _ => Fail EInternal end) |}.
 Definition w7_req := w_req "POST" "/c8/lit" [("Content-Type", "application/x-www-form-urlencoded")] "".
 Definition w7_find := w_find "/c8/lit" w7_rule [].
+Definition tree_F7 := set_F7 false all_fixed.
 Lemma F7_refuted :
-  wf_lreqb w7_req = true /\ g_F7_query w_decode w7_req QBody = true /\ guards_fire w_decode w7_find repo_now w7_req = true /\
-  serve_decision w_decode w7_find repo_now w7_req <> serve_envoy w_decode w7_find repo_now w7_req /\
-  serve_decision w_decode w7_find repo_now w7_req = serve_envoy w_decode w7_find (set_F7 true repo_now) w7_req.
+  wf_lreqb w7_req = true /\ g_F7_query w_decode w7_req QBody = true /\ guards_fire w_decode w7_find tree_F7 w7_req = true /\
+  serve_decision w_decode w7_find tree_F7 w7_req <> serve_envoy w_decode w7_find tree_F7 w7_req /\
+  guards_fire w_decode w7_find repo_now w7_req = false /\
+  serve_decision w_decode w7_find repo_now w7_req = serve_envoy w_decode w7_find repo_now w7_req.
 Proof. repeat split; try (vm_compute; reflexivity); vm_compute; intro E; inversion E. Qed.
 
-(** C13-F8: Headers() as a whole, whatever else is repaired *)
+(** C13-F8 (open): Headers() as a whole *)
 Definition w8_rule : rule :=
   {| r_id := "c7"; r_slashes := SOff;
      r_prog := Ask QHeaders (fun v => match v with VMap m => Emit (AddHeader "X-Host" (assoc "Host" m)) Allow | _ => Fail EInternal end) |}.
 Definition w8_find := w_find "/c7/lit" w8_rule [].
 Lemma F8_refuted :
-  g_F8_query QHeaders = true /\ guards_fire w_decode w8_find all_fixed w6_req = true /\
-  s_handover (serve_decision w_decode w8_find all_fixed w6_req) = Some {| ho_headers := [("X-Host", "a.example.com")]; ho_cookies := [] |} /\
-  s_handover (serve_envoy w_decode w8_find all_fixed w6_req) = Some {| ho_headers := [("X-Host", "")]; ho_cookies := [] |}.
+  g_F8_query QHeaders = true /\ guards_fire w_decode w8_find repo_now w6_req = true /\
+  s_handover (serve_decision w_decode w8_find repo_now w6_req) = Some {| ho_headers := [("X-Host", "a.example.com")]; ho_cookies := [] |} /\
+  s_handover (serve_envoy w_decode w8_find repo_now w6_req) = Some {| ho_headers := [("X-Host", "")]; ho_cookies := [] |}.
 Proof. repeat split; vm_compute; reflexivity. Qed.
 
-(** non-vacuity: a request with headers in odd casing, a cookie, a JSON body and an escape-free path
-    through a rule whose pipeline reads a capture, a header, a cookie and URL parts in a CEL
-    condition, a step condition and templates: no guard fires on the tree as it is (C13-F1 repaired),
-    the request is allowed and headers and a cookie are handed over — the main theorem applies to it *)
+(** non-vacuity: a request with headers in odd casing (read through a lower-case name), a cookie, a
+    JSON body and an ESCAPED path with an encoded slash through a rule with allow_encoded_slashes: on
+    whose pipeline reads a capture, a header, the Host header, a cookie and URL parts in a CEL
+    condition, a step condition and templates, and sets a header twice: no guard fires on the tree as
+    it is, the request is allowed and headers and a cookie are handed over — the main theorem applies *)
 Definition nv_rule : rule :=
-  w_rule "files" SOn (Some {| cd_q := QHeader "X-Role"; cd_c := "admin,lead" |})
+  w_rule "files" SOn (Some {| cd_q := QHeader "x-role"; cd_c := "admin,lead" |})
     [ {| st_if := Some {| cd_q := QCookie "sid"; cd_c := "123" |}; st_cookie := false;
          st_items := [("X-User", TEcho (QCapture "name")); ("X-Path", TEcho QPath)] |};
       {| st_if := None; st_cookie := true; st_items := [("session", TEcho (QCookie "theme"))] |};
-      hdr_step "X-Url" (TEcho QUrl) ].
+      hdr_step "X-Url" (TEcho QUrl); hdr_step "X-User" (TEcho (QHeader "host")) ].
 Definition nv_req : lreq :=
-  {| l_method := "POST"; l_tls := true; l_host := "a.example.com:8443"; l_rawpath := "/files/report.pdf"; l_query := "v=2";
+  {| l_method := "POST"; l_tls := true; l_host := "a.example.com:8443"; l_rawpath := "/files/2024%2Freport.pdf"; l_query := "v=2";
      l_hdrs := [("x-role", "admin"); ("X-ROLE", "lead"); ("Cookie", "sid=123; theme=dark"); ("content-type", "application/json");
                 ("Content-Length", "13")];
      l_body := "{""user"":""u""}"; l_peer := "10.0.0.1" |}.
-Definition nv_find := w_find "/files/report.pdf" nv_rule [("name", "report.pdf")].
+Definition nv_find := w_find "/files/2024%2Freport.pdf" nv_rule [("name", "2024%2Freport.pdf")].
 
 Example nonvacuous :
   wf_lreqb nv_req = true /\ guards_fire w_decode nv_find repo_now nv_req = false /\
-  guards_fire w_decode nv_find all_fixed nv_req = false /\
+  guards_fire w_decode nv_find pinned nv_req = true /\
   serve_envoy w_decode nv_find repo_now nv_req =
     {| s_err := None; s_rule := "files";
-       s_handover := Some {| ho_headers := [("X-User", "report.pdf"); ("X-Path", "/files/report.pdf");
-                                            ("X-Url", "https://a.example.com:8443/files/report.pdf?v=2")];
+       s_handover := Some {| ho_headers := [("X-User", "2024/report.pdf,a.example.com:8443"); ("X-Path", "/files/2024/report.pdf");
+                                            ("X-Url", "https://a.example.com:8443/files/2024/report.pdf?v=2")];
                              ho_cookies := [("session", "dark")] |} |}.
 Proof. repeat split; vm_compute; reflexivity. Qed.
 
-(** the same request through a rule that does not read captures: no guard fires for the pinned tree either *)
+(** a request through a rule that reads nothing the findings touch: no guard fires for the pinned tree either *)
 Definition nv2_rule : rule :=
   w_rule "files" SNoDecode (Some {| cd_q := QMethod; cd_c := "POST" |}) [hdr_step "X-Q" (TEcho QQuery); ck_step "c" (TEcho (QHeader "Content-Type"))].
+Definition nv2_req : lreq :=
+  {| l_method := "POST"; l_tls := true; l_host := "a.example.com:8443"; l_rawpath := "/files/report.pdf"; l_query := "v=2";
+     l_hdrs := [("content-type", "application/json"); ("Content-Length", "13")];
+     l_body := "{""user"":""u""}"; l_peer := "10.0.0.1" |}.
 Definition nv2_find := w_find "/files/report.pdf" nv2_rule [("name", "report.pdf")].
 Example nonvacuous_pinned :
-  guards_fire w_decode nv2_find pinned nv_req = false /\
-  s_handover (serve_envoy w_decode nv2_find pinned nv_req) =
+  guards_fire w_decode nv2_find pinned nv2_req = false /\
+  s_handover (serve_envoy w_decode nv2_find pinned nv2_req) =
     Some {| ho_headers := [("X-Q", "v=2")]; ho_cookies := [("c", "application/json")] |}.
 Proof. split; vm_compute; reflexivity. Qed.
